@@ -1,4 +1,4 @@
 export VERIF_REPO=$VP_RUN_REPO
 export FOCUS=1
-for n in 'C07-*' C10-peeked-time-rounded-through-f64 C02-bucket-index-through-f64-division C16-queue-admission-charges-header-only; do tools/rerun_all_seeded.sh "$n"; done
-for p in C01 C02 C07 C10 C14 C16 C09 C05 C20; do /usr/bin/time -f "$p wall=%es maxrss=%MKB" ./check $p thorough 2>&1 | grep -v "^  features\|^KNOWN" | tail -3; done
+for n in 'C17-*' 'C12-*'; do tools/rerun_all_seeded.sh "$n"; done
+for p in C03 C12 C17 C11; do /usr/bin/time -f "$p wall=%es maxrss=%MKB" ./check $p thorough 2>&1 | grep -v "^  features\|^KNOWN" | tail -3; done
